@@ -254,6 +254,8 @@ def run(ck):
             if fc not in fcmds:
                 fcmds.append(fc)
     djobs.append((h_ds, ['failstate'] + fcmds, os.path.join(ck.workdir, 'dfail')))
+    # stdin on a terminal whose device path (about 340 bytes) is longer than the smallest result buffers: the terminal data sources at every size around it
+    djobs.append((h_ds, ['ttylong'] + ['ds %s - 257 700' % n for n in ('tty', 'tty_uid', 'tty_username', 'ipaddr', 'login')] + ['dsl %s - 2047 2048 4095 4096 4097' % n for n in ('tty', 'tty_uid', 'tty_username', 'ipaddr')], os.path.join(ck.workdir, 'dtty')))
     res = pmap(lambda j: ('x', run_chunk(j)) if j[0] != h_ds else ('d', run_ds(j)), jobs + djobs)
     evals = 0
     outcomes = set()
@@ -287,7 +289,7 @@ def run(ck):
                 ck.violation('C02:unterminated_result:%s%s' % ('state=cwd_removed_no_stdin_no_env:' if job[1][:1] == ['failstate'] else '', ' '.join(l.split()[1:3])[:80]), {'line': l})
         if rc != 0 or 'done' not in lines[-1:]:
             dcs = [c for c in job[1] if c.startswith(('ds ', 'dsl '))]
-            cmd = (('failstate; ' if job[1][:1] == ['failstate'] else '') + dcs[len(got)]) if len(got) < len(dcs) else '?'
+            cmd = (('failstate; ' if job[1][:1] == ['failstate'] else 'stdin=tty_with_340_byte_path; ' if job[1][:1] == ['ttylong'] else '') + dcs[len(got)]) if len(got) < len(dcs) else '?'
             ck.violation('C02:component_abort:%s' % cmd[:100], {'command': cmd, 'rc': rc, 'sanitizer': reports[:1]})
             if len(got) + 1 < len(job[1]):
                 ck.capped = True
